@@ -1061,5 +1061,82 @@ proof fn lemma_constructors_injective<T: TypeHash, U: TypeHash>()
     assert(<[T; 3]>::th()[1] == HItem::Usize(3));
 }
 
+
+// =========================================================================
+// derive(Epserde) output for sample definitions (rustc's expansion of the
+// harness crate): names, field names, field order and field types are all in
+// the feed (C04), for all type parameters.
+// =========================================================================
+
+//@item @types name=G2 <<pub struct G2<T, U> {>>
+//@end
+//@item @types name=Z8 <<pub struct Z8 {>>
+//@end
+//@item @types name=E1 <<pub enum E1 {>>
+//@end
+
+//@item @derive props=C04,C05,C06 name=G2::TypeHash <<impl<T, U> epserde::traits::TypeHash for G2<T, U> where>>
+//@  replace <<epserde::traits::>> <<>>
+//@  body_prefix
+//@|    /// copy kind, type name, field names in order, field types in order
+//@|    open spec fn th() -> Seq<HItem> {
+//@|        seq![HItem::Str("DeepCopy"@), HItem::Str("G2"@), HItem::Str("a"@), HItem::Str("b"@), HItem::Str("c"@)]
+//@|            + T::th() + U::th() + u8::th()
+//@|    }
+//@  sub <<fn type_hash(>>
+//@  impl_arg
+//@end
+
+//@item @derive props=C04,C05,C06 name=G2::AlignHash <<impl<T, U> epserde::traits::AlignHash for G2<T, U> where>>
+//@  replace <<epserde::traits::>> <<>>
+//@  body_prefix
+//@|    /// a deep type restarts every field at offset 0
+//@|    open spec fn ah(off: nat) -> Seq<HItem> { T::ah(0) + U::ah(0) + u8::ah(0) }
+//@|    open spec fn ah_off(off: nat) -> nat { off }
+//@|    open spec fn ah_fits(off: nat) -> bool { T::ah_fits(0) && U::ah_fits(0) && u8::ah_fits(0) }
+//@  sub <<fn align_hash(>>
+//@  impl_arg
+//@end
+
+//@item @derive props=C04,C05,C06 name=Z8::TypeHash <<impl epserde::traits::TypeHash for Z8<> {>>
+//@  replace <<epserde::traits::>> <<>>
+//@  body_prefix
+//@|    open spec fn th() -> Seq<HItem> {
+//@|        seq![HItem::Str("ZeroCopy"@), HItem::Str("Z8"@), HItem::Str("a"@), HItem::Str("b"@), HItem::Str("c"@)]
+//@|            + u32::th() + u16::th() + u16::th()
+//@|    }
+//@  sub <<fn type_hash(>>
+//@  impl_arg
+//@end
+
+//@item @derive props=C04,C05,C06 name=Z8::AlignHash <<impl epserde::traits::AlignHash for Z8<> {>>
+//@  replace <<epserde::traits::>> <<>>
+//@  body_prefix
+//@|    /// size, representation attributes, then the fields at running offsets
+//@|    open spec fn ah(off: nat) -> Seq<HItem> {
+//@|        seq![HItem::Usize(vstd::layout::size_of::<Z8>()), HItem::Str("C"@)]
+//@|            + u32::ah(off) + u16::ah(u32::ah_off(off)) + u16::ah(u16::ah_off(u32::ah_off(off)))
+//@|    }
+//@|    open spec fn ah_off(off: nat) -> nat { u16::ah_off(u16::ah_off(u32::ah_off(off))) }
+//@|    open spec fn ah_fits(off: nat) -> bool {
+//@|        u32::ah_fits(off) && u16::ah_fits(u32::ah_off(off)) && u16::ah_fits(u16::ah_off(u32::ah_off(off)))
+//@|    }
+//@  sub <<fn align_hash(>>
+//@  impl_arg
+//@end
+
+//@item @derive props=C04,C05,C06 name=E1::TypeHash <<impl epserde::traits::TypeHash for E1<> {>>
+//@  replace <<epserde::traits::>> <<>>
+//@  body_prefix
+//@|    /// variant names in order, each followed by its field names and types
+//@|    open spec fn th() -> Seq<HItem> {
+//@|        seq![HItem::Str("DeepCopy"@), HItem::Str("E1"@), HItem::Str("A"@), HItem::Str("B"@), HItem::Str("0"@)]
+//@|            + u16::th() + seq![HItem::Str("C"@), HItem::Str("x"@)] + u8::th() + seq![HItem::Str("y"@)] + u32::th()
+//@|            + seq![HItem::Str("D"@)]
+//@|    }
+//@  sub <<fn type_hash(>>
+//@  impl_arg
+//@end
+
 } // verus!
 fn main() {}
